@@ -112,9 +112,54 @@ def student_sweep(tier, seed):
                     fails.append({'input': {'values': vs, 'errors': es, 'alpha': alpha, 'ndf': ndf}, 'observed': probs[:3], 'expected': 'C05 oracle'})
         if len(fails) >= 8:
             break
+    # the critical value itself: for every level and number of degrees of freedom (small, large, huge, fractional, none) a statistic just below the
+    # two-sided critical value of THAT law passes and one just above fails; per-bin ndf arrays; tiny and huge magnitudes with zero errors
+    den = math.sqrt(0.5)
+    for alpha in (0.01, 0.05, 0.1, 0.5, 1e-6):
+        for ndf in (None, 1, 2, 2.5, 20, 100, 999, 1000, 1001, 2000, 5000, 10 ** 5, 10 ** 7):
+            thr = abs(norm.ppf(alpha / 2)) if ndf is None else abs(tdist.ppf(alpha / 2, ndf))
+            for factor, want in ((1 - 1e-4, True), (1 + 1e-4, False)):
+                for scalar in (False, True):
+                    n += 1
+                    v2 = thr * factor
+                    d1 = _ds_scalar(0.0, den) if scalar else _ds([0.0, 1.0], [den, 1.0])
+                    d2 = _ds_scalar(v2, den) if scalar else _ds([v2, 1.0], [den, 1.0])
+                    r = TestStudent(d1, d2, name='s', alpha=alpha, ndf=ndf).evaluate()
+                    pv = r.test_pvalue()
+                    pvd = bool(np.all([np.all(x) for x in pv])) if isinstance(pv, list) else bool(np.all(pv))
+                    probs = []
+                    if bool(r) != want:
+                        probs.append(f'verdict {bool(r)} for |t| = {factor} x the two-sided critical value {thr}')
+                    if pvd != want:
+                        probs.append(f'p-value decision {pvd} for |t| = {factor} x the critical value')
+                    if probs:
+                        fails.append({'input': {'v1': 0.0, 'e1': den, 'v2': v2, 'e2': den, 'alpha': alpha, 'ndf': ndf, 'scalar': scalar}, 'observed': probs[:3], 'expected': 'C05 oracle'})
+    for ndfs_arr, alpha in (([1, 1001], 0.01), ([5000, 2], 0.05)):
+        thr = [abs(tdist.ppf(alpha / 2, k)) for k in ndfs_arr]
+        for which in (0, 1):
+            for factor, want in ((1 - 1e-4, True), (1 + 1e-4, False)):
+                n += 1
+                v2 = [thr[b] * (factor if b == which else 0.5) for b in (0, 1)]
+                r = TestStudent(_ds([0.0, 0.0], [den, den]), _ds(v2, [den, den]), name='s', alpha=alpha, ndf=np.array(ndfs_arr)).evaluate()
+                if bool(r) != want:
+                    fails.append({'input': {'values': [[0.0, 0.0], v2], 'errors': [[den, den], [den, den]], 'alpha': alpha, 'ndf': ndfs_arr}, 'observed':
+                                  [f'verdict {bool(r)} with bin {which} at {factor} x its own critical value'], 'expected': 'C05 oracle (per-bin degrees of freedom)'})
+    for (v1, v2) in ((1e-9, 3e-9), (1e-9, 1e-9), (0.0, 1e-300), (1e12, 1e12 + 1), (-2e-12, 2e-12)):
+        for scalar in (False, True):
+            for c in (1.0, 1e12):
+                n += 1
+                d1 = _ds_scalar(v1 * c, 0.0) if scalar else _ds([v1 * c], [0.0])
+                d2 = _ds_scalar(v2 * c, 0.0) if scalar else _ds([v2 * c], [0.0])
+                r = TestStudent(d1, d2, name='s', alpha=0.05).evaluate()
+                want = (v1 * c == v2 * c)
+                if bool(r) != want:
+                    fails.append({'input': {'v1': v1 * c, 'e1': 0.0, 'v2': v2 * c, 'e2': 0.0, 'alpha': 0.05, 'ndf': None, 'scalar': scalar},
+                                  'observed': [f'verdict {bool(r)}: with zero errors the values are compatible only when they are equal'], 'expected': 'C05 oracle'})
     return {'name': 'student-native', 'evaluations': n, 'distinct': n, 'failures': fails[:8], 'exhaustive': tier != 'quick',
             'bound': f'1-bin arrays and 0-d scalars over values {VALS} x errors {ERRS} (all 1 600 cells in the thorough tier, 500 sampled in quick) x alpha in {alphas} x ndf in {ndfs}; '
-                     'verdict / oracles / p-value decision / symmetry; random 2-3 bin, 2-dataset cases for conjunction, rescaling and monotonicity',
+                     'verdict / oracles / p-value decision / symmetry; random 2-3 bin, 2-dataset cases for conjunction, rescaling and monotonicity; |t| at (1 -+ 1e-4) x the two-sided '
+                     'critical value for alpha in {0.01, 0.05, 0.1, 0.5, 1e-6} x ndf in {none, 1, 2, 2.5, 20, 100, 999, 1000, 1001, 2000, 5000, 1e5, 1e7} and per-bin ndf arrays; '
+                     'zero errors with tiny / huge values and their rescaling by 1e12',
             'samples': [{'v1': 1.0, 'e1': 0.0, 'v2': float('nan'), 'e2': 1.0, 'alpha': 0.05, 'ndf': None}]}
 
 
